@@ -8,7 +8,7 @@
      lower_pinned / RPinned = the code as it is at /repo HEAD
      shifted_nonletter A c  = c is (non-letter member of A)+32, the bytes the HEAD table adds by mistake *)
 From Coq Require Import ZArith List Bool.
-From BNP Require Import Base.Prims Model.C06 Corr.C06 Proofs.C06 Proofs.C06_link.
+From BNP Require Import Base.Prims Model.C06 Corr.C06 Proofs.C06 Proofs.C06_link Gen.C06 Bridge.C06.
 Import ListNotations.
 Open Scope Z_scope.
 
@@ -198,6 +198,48 @@ Theorem C06_link_table :
     spec_ok c = true.
 Proof. exact link_table. Qed.
 Print Assumptions C06_link_table.
+
+(* ---------------------------------------------------------------- source tie (translator + bridge) *)
+(* The kernels regenerated from /repo on this run (Gen/C06.v, written by translate/run.py + translate/gen_c06.py) are
+   the definitions the theorems above are about: __init__'s upper-casing, the complete table construction of
+   _initialize (which positions get which code), _encode's per-element lookup / rejection test / invalid mark /
+   reported offset (the encoder reassembled from generated pieces only), _decode's indexing, the re-targeting
+   rule's m, prefix lengths [:m + 1] and fit test m < len(target), and the numeric offset encodings. *)
+Theorem C06_source_tie :
+  (forall raw, gen_raw_alphabet raw = alphabet_of raw)
+  /\ (forall A, gen_alphabet_size A = len A /\ gen_build_lookup A = build_lookup lower_fixed A)
+  /\ (forall tbl b r n, gen_encode_elem tbl b = nthZ tbl b /\ gen_encode_reject r n = (n <=? r))
+  /\ gen_encode_invalid_code = invalid_code /\ gen_encode_offset_pick = 0
+  /\ (forall A s, encode_flat lower_fixed A s =
+        (let ret := map (gen_encode_elem (gen_build_lookup A)) s in
+         if existsb (fun r => gen_encode_reject r (gen_alphabet_size A)) ret then
+           match nth_error (positions gen_encode_invalid_code ret) (Z.to_nat gen_encode_offset_pick) with
+           | Some o => EncErr o | None => Crash end
+         else Ok ret))
+  /\ (forall A k, gen_decode_elem A k = nthZ A k)
+  /\ (forall size mx m n, gen_retarget_m size mx = m_retarget_m size mx
+                          /\ gen_retarget_prefix_src m = m_prefix_len m /\ gen_retarget_prefix_dst m = m_prefix_len m
+                          /\ gen_retarget_fits m n = m_fits m n)
+  /\ (forall x mc, gen_numeric_encode x mc = num_encode x mc /\ gen_numeric_decode x mc = num_decode x mc)
+  /\ (gen_digit_min_code = digit_min_code /\ gen_quality_min_code = quality_min_code /\ gen_cigar_min_code = cigar_min_code).
+Proof.
+  exact (conj b_raw_alphabet
+        (conj (fun A => conj (b_alphabet_size A) (b_build_lookup A))
+        (conj (fun tbl b r n => conj (b_encode_elem tbl b) (b_encode_reject r n))
+        (conj b_encode_invalid_code (conj b_encode_offset_pick
+        (conj encode_flat_from_gen
+        (conj b_decode_elem
+        (conj (fun size mx m n => conj (b_retarget_m size mx) (conj (b_retarget_prefix_src m) (conj (b_retarget_prefix_dst m) (b_retarget_fits m n))))
+        (conj (fun x mc => conj (b_numeric_encode x mc) (b_numeric_decode x mc))
+              b_min_codes))))))))).
+Qed.
+Print Assumptions C06_source_tie.
+
+(* the numeric offset encodings are inverse to each other for every min_code *)
+Theorem C06_numeric_roundtrip :
+  forall b mc, num_decode (num_encode b mc) mc = b /\ num_encode (num_decode b mc) mc = b.
+Proof. exact (fun b mc => conj (Z.sub_add mc b) (Z.add_simpl_r b mc)). Qed.
+Print Assumptions C06_numeric_roundtrip.
 
 (* ---------------------------------------------------------------- non-vacuity *)
 (* "acgTn" over ACGTN meets the hypotheses and the executable model returns codes decoding to "ACGTN";
